@@ -101,8 +101,9 @@ def runLine (l : String) : String :=
       let frag := (anfFragFlags L.fns s)
       let nFrag := (frag.filter (fun b => b)).length
       let nTemps := (anfFns L.fns 0).2
+      let fileFrag := if frag.all (fun b => b) then 1 else 0
       let notIn := ((L.fns.zip frag).filter (fun p => !p.2)).map (fun p => p.1.name)
-      s!"{id}\t{r0}\t{rp}\tstart={s}\tfns={nf}\tlift={nLift}\tisA0={nA}\tisAP={nAP}\tfrag={nFrag}\ttemps={nTemps}\tnotfrag={" ".intercalate (notIn.take 5)}"
+      s!"{id}\t{r0}\t{rp}\tstart={s}\tfns={nf}\tlift={nLift}\tisA0={nA}\tisAP={nAP}\tfrag={nFrag}\ttemps={nTemps}\tfilefrag={fileFrag}\tnotfrag={" ".intercalate (notIn.take 5)}"
     | _, _, _ => s!"{id}\tdecode-error"
   | _ => s!"{id}\tparse-error"
 
